@@ -36,3 +36,14 @@ func TestStandardVectors(t *testing.T) {
 		t.Fatalf("A.2: %x", buf)
 	}
 }
+
+func TestKeyForRoundKey(t *testing.T) {
+	for _, i := range []int{0, 1, 2, 3, 4, 15, 28, 30, 31} {
+		for _, v := range []uint32{0, 0xffffffff, 0x80000000, 1} {
+			key := KeyForRoundKey(i, v, [3]uint32{0x11111111 * uint32(i+1), 0xdeadbeef, 0x01234567})
+			if rk := RoundKeys(key); rk[i] != v {
+				t.Fatalf("round key %d = %08x, want %08x", i, rk[i], v)
+			}
+		}
+	}
+}
